@@ -33,6 +33,9 @@ type CompilationUnit struct {
 	CompiledAt     time.Time
 	ExecutionCount int64
 	LastExecuted   time.Time
+
+	// source is the route definition the bytecode was compiled from
+	source *ast.Route
 }
 
 // JITCompiler manages just-in-time compilation
@@ -116,6 +119,12 @@ func (jit *JITCompiler) CompileRoute(name string, route *ast.Route) ([]byte, err
 	// Check if we have a cached compiled unit
 	jit.unitsMux.RLock()
 	unit, exists := jit.units[name]
+	if exists && unit.source != nil && unit.source != route {
+		// Cached code was compiled from another definition of this route (a
+		// caller still holding the previous definition can re-populate the
+		// cache after an invalidation): never serve it for this one.
+		exists = false
+	}
 	jit.unitsMux.RUnlock()
 
 	if exists {
@@ -124,12 +133,17 @@ func (jit *JITCompiler) CompileRoute(name string, route *ast.Route) ([]byte, err
 		jit.stats.CacheHits++
 		jit.statsMux.Unlock()
 
-		// Check if we should recompile to a higher tier
-		if jit.shouldRecompile(unit) {
+		// Check if we should recompile to a higher tier. The unit's fields are
+		// written by recompileRoute under unitsMux, so read them under it too.
+		jit.unitsMux.RLock()
+		recompile := jit.shouldRecompile(unit)
+		bytecode := unit.Bytecode
+		jit.unitsMux.RUnlock()
+		if recompile {
 			return jit.recompileRoute(name, route, unit)
 		}
 
-		return unit.Bytecode, nil
+		return bytecode, nil
 	}
 
 	// Cache miss - compile for the first time
@@ -154,6 +168,7 @@ func (jit *JITCompiler) CompileRoute(name string, route *ast.Route) ([]byte, err
 		CompiledAt:     time.Now(),
 		ExecutionCount: 0,
 		LastExecuted:   time.Now(),
+		source:         route,
 	}
 
 	// Cache the unit
@@ -233,7 +248,9 @@ func (jit *JITCompiler) recompileRoute(name string, route *ast.Route, currentUni
 	startTime := time.Now()
 
 	// Determine next tier
+	jit.unitsMux.RLock()
 	nextTier := jit.getNextTier(currentUnit.Tier)
+	jit.unitsMux.RUnlock()
 
 	// Compile with new tier
 	bytecode, err := jit.compileWithTier(route, nextTier)
@@ -407,7 +424,7 @@ func (jit *JITCompiler) SetRecompileWindow(window time.Duration) {
 // CompileRouteWithTypes compiles a route with type specialization
 func (jit *JITCompiler) CompileRouteWithTypes(name string, route *ast.Route, types map[string]string) ([]byte, error) {
 	// Check for existing specialization
-	if spec := jit.specializationCache.GetSpecialization(name, types); spec != nil {
+	if spec := jit.specializationCache.getSpecializationFor(name, types, route); spec != nil {
 		jit.statsMux.Lock()
 		jit.stats.SpecializationHits++
 		jit.statsMux.Unlock()
@@ -425,7 +442,7 @@ func (jit *JITCompiler) CompileRouteWithTypes(name string, route *ast.Route, typ
 	}
 
 	// Cache the specialization
-	jit.specializationCache.AddSpecialization(name, types, bytecode)
+	jit.specializationCache.addSpecializationFor(name, types, bytecode, route)
 
 	return bytecode, nil
 }
